@@ -291,6 +291,30 @@ def near_misses(il: Any) -> list[tuple[str, Any]]:
                 out.append(("unused_redn_var", il3))
         out.append(("red_of_sum", rebuild(Reduce(e.inner_expr + 1, e.op, e.bounds))))
         out.append(("red_scaled", rebuild(2 * Reduce(e.inner_expr, e.op, e.bounds))))
+    # a VALUE-CHANGING cast of one operand inside the operation (cast(int8, a[_0]) + b[_0] is
+    # not a + b), and an extra binding that nothing references (it must not decide anything)
+    from pytato.scalar_expr import TypeCast
+    if isinstance(e, (p.Sum, p.Product, p.Quotient, p.Comparison, p.If, p.Call)) \
+            and il.dtype.kind in "fc":
+        m2 = SubMut(lambda idx, shape: None, 0)
+
+        class CastFirst(IdentityMapper):
+            done = False
+
+            def map_subscript(self, expr: Any) -> Any:
+                if not self.done:
+                    self.done = True
+                    return TypeCast(np.dtype(np.int8), expr)
+                return expr
+        new = CastFirst()(e)
+        if new != e:
+            out.append(("narrowing_cast_of_operand", rebuild(new)))
+    if il.bindings and all(isinstance(d, int) for d in il.shape) and len(il.shape) >= 1:
+        big = pt.make_placeholder("zz_unused", (3, *il.shape), np.float64)
+        out.append(("unused_wider_binding", pt.IndexLambda(
+            expr=il.expr, shape=il.shape, dtype=il.dtype,
+            bindings=constantdict({**il.bindings, "_in8": big}), axes=il.axes,
+            var_to_reduction_descr=il.var_to_reduction_descr, tags=il.tags)))
     # an axis that NO operand supplies: the same expression with every index variable
     # shifted by one inside a result with an extra leading axis of length 2 (a broadcast of
     # the whole operation: not the operation itself), and with an extra trailing axis
@@ -404,6 +428,30 @@ def numpy_result_dtype(hlo: Any) -> Any:
     return None
 
 
+def _lossy_operand_casts(il: Any) -> list[str]:
+    """casts TypeCast(t, <subscript of binding b>) with b.dtype not safely castable to t"""
+    import pymbolic.primitives as p
+
+    from pytato.scalar_expr import IdentityMapper, TypeCast
+    found: list[str] = []
+
+    class Scan(IdentityMapper):
+        def map_type_cast(self, expr: Any) -> Any:
+            inner = expr.inner_expr
+            name = inner.aggregate.name if isinstance(inner, p.Subscript) and isinstance(
+                inner.aggregate, p.Variable) else inner.name if isinstance(
+                    inner, p.Variable) else None
+            if name in il.bindings and not np.can_cast(il.bindings[name].dtype, expr.dtype,
+                                                       "safe"):
+                found.append(f"{name}:{il.bindings[name].dtype}->{expr.dtype}")
+            return TypeCast(expr.dtype, self.rec(inner))
+    try:
+        Scan()(il.expr)
+    except Exception:      # noqa: BLE001
+        return []
+    return found
+
+
 def classify(il: Any) -> tuple[str, Any]:
     from pytato.diagnostic import UnknownIndexLambdaExpr
     from pytato.raising import index_lambda_to_high_level_op
@@ -468,6 +516,19 @@ def main(tier: str, only: list[dict] | None = None) -> int:
                           record={"prog": prog, "variant": variant},
                           sig={"op": op, "family": family, "variant": variant,
                                "clause": "lossy_cast_dropped", "hlo": type(res).__name__})
+        # ... and the same for a cast of an OPERAND inside the operation: raising drops
+        # every cast, so a cast that the operand's dtype does not survive unchanged
+        # (cast(int8, a[_0]) + b[_0]) makes the lambda something else than the operation
+        lossy = _lossy_operand_casts(il)
+        if lossy:
+            run.violation(rid + "|operand_cast",
+                          f"{rid}: index lambda `{il.expr}` was raised to "
+                          f"{type(res).__name__} although it casts operand(s) {lossy} to a "
+                          f"dtype that cannot hold them: the narrowing cast is lost",
+                          record={"prog": prog, "variant": variant},
+                          sig={"op": op, "family": family, "variant": variant,
+                               "clause": "lossy_operand_cast_dropped",
+                               "hlo": type(res).__name__})
         hlo_kinds[rec["hlo"]] = hlo_kinds.get(rec["hlo"], 0) + 1
         records.append(rec)
         meta[rid] = {"prog": prog, "variant": variant, "family": family, "op": op,
